@@ -1024,6 +1024,9 @@ func (c *Cursor) String() string {
 		var ks string
 		if c.path[i].linkIndex < len(c.path[i].node.Key) {
 			ks = fmt.Sprintf("%v", c.path[i].node.Key[c.path[i].linkIndex])
+		} else if c.path[i].linkIndex == 0 {
+			// a node without keys: the top node of an empty tree, a pass-through node
+			ks = "-"
 		} else {
 			ks = fmt.Sprintf(">%v", c.path[i].node.Key[c.path[i].linkIndex-1])
 		}
